@@ -9,6 +9,7 @@ package main
 // compared with a table frozen from the format specification.
 
 import (
+	"hash/crc32"
 	"fmt"
 	"go/constant"
 	"go/token"
@@ -993,6 +994,21 @@ func (in *Interp) doCall(fr *frame, x *ssa.Call, depth int) (res aval, panicked,
 		} else {
 			return aUnknown, false, true
 		}
+	}
+	if callee.Pkg != nil && callee.Pkg.Pkg.Path() == "hash/crc32" && callee.Name() == "ChecksumIEEE" && len(cc.Args) == 1 {
+		// the CRC-32 (IEEE) of a concrete byte string
+		bs, okB := sliceBytes(in.get(fr, cc.Args[0]))
+		if in.get(fr, cc.Args[0]).k == kNil {
+			bs, okB = nil, true
+		}
+		if !okB {
+			return aUnknown, false, true
+		}
+		raw := make([]byte, len(bs))
+		for i, b := range bs {
+			raw[i] = byte(b)
+		}
+		return aInt(int64(crc32.ChecksumIEEE(raw)), x.Type()), false, true
 	}
 	if callee.Pkg != nil && callee.Pkg.Pkg.Path() == "sort" && callee.Name() == "Search" && len(cc.Args) == 2 {
 		// sort.Search(n, f): the binary search of the standard library, f evaluated by the interpreter
